@@ -124,6 +124,72 @@ def reformat_function(path, cls, name):
     return edit
 
 
+def reformat_all_modules():
+    """Every Python module of the runtime closure is replaced by ast.unparse of itself: all formatting, comments, quoting and
+    line numbers change; semantics do not."""
+    def edit(root):
+        out = []
+        for rel in (XE, CC, ST, CT, AT, EL, IND, TR, PA, CO, UT, 'musicxml/xmlelement/containers.py', 'musicxml/exceptions.py',
+                    'musicxml/xmlelement/exceptions.py', 'musicxml/util/helprervariables.py'):
+            p = os.path.join(root, rel)
+            if not os.path.isfile(p):
+                raise Skip(f"{rel} missing")
+            src = open(p, encoding='utf-8').read()
+            open(p, 'w', encoding='utf-8').write(ast.unparse(ast.parse(src)) + '\n')
+            out.append(rel)
+        return out
+    return edit
+
+
+def rename_all_locals(path, suffix='_v'):
+    """Rename every local variable (not parameters, not attributes) of every function in one file by appending a suffix."""
+    def edit(root):
+        p = os.path.join(root, path)
+        src = open(p, encoding='utf-8').read()
+        tree = ast.parse(src)
+
+        class Ren(ast.NodeTransformer):
+            def __init__(self):
+                self.stack = []
+
+            def visit_FunctionDef(self, node):
+                params = {a.arg for a in node.args.posonlyargs + node.args.args + node.args.kwonlyargs}
+                if node.args.vararg:
+                    params.add(node.args.vararg.arg)
+                if node.args.kwarg:
+                    params.add(node.args.kwarg.arg)
+                stored = set()
+                nested_names = set()
+                stack = list(node.body)
+                while stack:
+                    n = stack.pop()
+                    if isinstance(n, (ast.FunctionDef, ast.ClassDef, ast.Lambda)):
+                        if isinstance(n, ast.FunctionDef):
+                            nested_names.add(n.name)
+                        continue
+                    if isinstance(n, ast.Name) and isinstance(n.ctx, ast.Store):
+                        stored.add(n.id)
+                    if isinstance(n, (ast.Global, ast.Nonlocal)):
+                        params |= set(n.names)
+                    stack.extend(ast.iter_child_nodes(n))
+                locs = stored - params - nested_names
+                outer = set().union(*self.stack) if self.stack else set()
+                self.stack.append(locs | outer)
+                node.body = [self.visit(b) for b in node.body]
+                self.stack.pop()
+                return node
+
+            def visit_Name(self, node):
+                if self.stack and node.id in self.stack[-1]:
+                    return ast.copy_location(ast.Name(id=node.id + suffix, ctx=node.ctx), node)
+                return node
+        new = Ren().visit(tree)
+        ast.fix_missing_locations(new)
+        open(p, 'w', encoding='utf-8').write(ast.unparse(new) + '\n')
+        return [path]
+    return edit
+
+
 def revert_commit(sha):
     def edit(root):
         r = subprocess.run(['git', '-C', REPO, 'show', sha, '--format=', '--', '.'], capture_output=True, text=True)
@@ -251,6 +317,21 @@ CONTROLS = [
     C('silent-independent-statements-reordered', 'silent', ['C13', 'C14', 'C06'], sub("        self._attributes = {}\n        self._et_xml_element = None\n", "        self._et_xml_element = None\n        self._attributes = {}\n", XE), None, 'independent statements commute'),
     C('silent-equivalent-comparison', 'silent', ['C01'], sub("            if len(self.content.xml_elements) == self.max_occurrences:", "            if self.max_occurrences == len(self.content.xml_elements):", CC), None, 'swapped operands'),
     C('silent-extract-helper-write', 'silent', ['C17'], sub("        xml_string = self.to_string(intelligent_choice=intelligent_choice)\n        with open(path, 'w', encoding='utf-8') as file:", "        xml_string = self.to_string(intelligent_choice=intelligent_choice)\n        destination = path\n        with open(destination, 'w', encoding='utf-8') as file:", XE), None, 'an alias for the path'),
+]
+
+ALL_PROPS = ['C01', 'C03', 'C04', 'C05', 'C06', 'C08', 'C09', 'C10', 'C11', 'C13', 'C14', 'C15', 'C16', 'C17', 'C18', 'C19', 'C20']
+CONTROLS += [
+    C('silent-reformat-all-modules', 'silent', ALL_PROPS, reformat_all_modules(), None, 'whole-program re-formatting'),
+    C('silent-rename-all-locals-container', 'silent', ALL_PROPS, rename_all_locals(CC), None, 'every local of xmlchildcontainer.py renamed'),
+    C('silent-rename-all-locals-parser', 'silent', ['C08', 'C09', 'C17', 'C19'], rename_all_locals(PA), None, 'every local of parser.py renamed'),
+    C('silent-rename-all-locals-simpletype', 'silent', ['C03', 'C05', 'C08', 'C13', 'C20'], rename_all_locals(ST), None, 'every local of xsdsimpletype.py renamed'),
+    C('silent-rename-all-locals-attribute', 'silent', ['C03', 'C04', 'C13', 'C20', 'C19'], rename_all_locals(AT), None, 'every local of xsdattribute.py renamed'),
+    C('silent-rename-all-locals-xmlelement', 'silent', ALL_PROPS, rename_all_locals(XE), None, 'every local of xmlelement.py renamed'),
+    C('silent-rename-all-locals-xsdtree', 'silent', ['C03', 'C05', 'C13', 'C19', 'C20'], rename_all_locals(TR), None, 'every local of xsdtree.py renamed'),
+    C('silent-rename-all-locals-xsdelement', 'silent', ['C01', 'C06', 'C10', 'C13'], rename_all_locals(EL), None, 'every local of xsdelement.py renamed'),
+    C('silent-rename-all-locals-indicator', 'silent', ['C03', 'C13', 'C20'], rename_all_locals(IND), None, 'every local of xsdindicator.py renamed'),
+    C('silent-rename-all-locals-core', 'silent', ['C03', 'C04', 'C08', 'C19'], rename_all_locals(CO), None, 'every local of util/core.py renamed'),
+    C('silent-rename-all-locals-complextype', 'silent', ['C03', 'C04', 'C05', 'C13', 'C20'], rename_all_locals(CT), None, 'every local of xsdcomplextype.py renamed'),
 ]
 
 # seeded changes and the properties whose checks are expected to report them (DESIGN.md section 7 table)
